@@ -117,6 +117,9 @@ func main() {
 		}
 		t0 := time.Now()
 		rep := &core.Report{Prop: id, Tier: *tier, Explanation: pr.Explanation, NotDecided: pr.NotDecided, Assumptions: pr.Assumptions, Extra: map[string]any{}}
+		if p != nil && p.WordBits == 32 {
+			rep.Platform = "GOARCH=386"
+		}
 		if lerr != nil {
 			rep.Broken = append(rep.Broken, "load: "+lerr.Error())
 		} else if lerr386 != nil {
